@@ -1,10 +1,12 @@
 """Per-property plans: which monitors run in which build variant at which tier, the coverage rule
 text, the claimed level and the assumptions. MANIFEST.json is generated from META (tools/gen_manifest.py)."""
+from . import core
 from .core import Run
 
 META = {}
 PLANS = {}
 FLOORS = {}
+AUX = {}
 
 
 def prop(pid, **kw):
@@ -416,6 +418,44 @@ def plan_c17(tier, seed):
 
 
 FLOORS["C17"] = {"ondemand_windows_observed": 2000, "ondemand_and_xen_ops": 5000, "distinct_nontrivial": 400}
+
+# ----------------------------------------------------------------------------------------------
+prop("C12", level="exploration",
+     title="A mapping lives exactly as long as something can still reach it",
+     technique="kernel-level event-log monitor: every mmap/munmap the library issues is recorded by a link-time syscall interposer while the harness keeps the owner set of every mapping (maps, derived maps, removed-region handles, clones, GuestMemoryAtomic snapshots and owned handles); after every step the observed munmaps must be exactly the mappings whose last owner just went away, with the exact (addr, len); externally provided (build_raw) mappings are never unmapped; /proc/self/maps cross-check for named file mappings; reads through every live owner; Miri runs the same sequences on the allocation path (leak / double free / use-after-free); auxiliary compile-fail corpus for the static clause",
+     rule="cases = owner histories. Enumerated completely: every drop order (4! = 24 each) of three owner shapes - insert/remove chain {M1{A,B}, M2=M1+C, M3=M2-A, handle(A)}, replaceable map {atomic, snapshot taken before a replacement, owned snapshot taken after it, clone of the first snapshot}, clones and shared Arcs {M1{A}, clone, handle(A), M3=from_arc_regions[A,B]} over anonymous, named-file and externally provided mappings. Random sequences of 6..30 steps: create 1..3 regions into a map, insert, remove (+keep handle), clone, GuestMemoryAtomic from clone, snapshot, into_inner, replace, drop of a random owner. distinct key = (shape, drop order) and (step kind, owners alive); all non-trivial",
+     exhaustive_note="all 24 drop orders of each of the three owner shapes",
+     assumptions=["the interposer sees every mmap/munmap issued through the libc crate (all of vm-memory's)", "the static clause ('must not compile') is not an execution: the compile-fail corpus (10 escaping programs with compiling twins) samples it and is reported separately under coverage.static_clause_corpus"],
+     level_text="Event-log oracle over exhaustively enumerated drop orders and random owner histories, with Miri as leak/UAF oracle on the allocation path; held-on-observed. The static clause is only sampled by a compile-fail corpus.",
+     level_note="Address reuse by the kernel is harmless because logs are judged after every single step.",
+     design_ref="DESIGN.md §7 C12")
+
+
+@plan("C12")
+def plan_c12(tier, seed):
+    if tier == "quick":
+        runs = [Run("std-debug", "c12", ["seed=%d" % seed, "cases=1500"], timeout=600, crash_is_violation=True),
+                Run("xen-debug", "c12", ["seed=%d" % seed, "cases=300"], timeout=600, crash_is_violation=True)]
+        runs += shards("miri", "c12", 8, ["seed=%d" % seed, "cases=16", "maxsteps=10", "noenum"], timeout=900)
+        runs.append(Run("miri", "c12", ["seed=%d" % seed, "cases=0"], timeout=900))
+        return runs
+    runs = shards("std-debug", "c12", 8, ["seed=%d" % seed, "cases=200000"], timeout=3400, crash_is_violation=True)
+    runs += shards("std-release", "c12", 4, ["seed=%d" % (seed + 1), "cases=100000"], timeout=3400, crash_is_violation=True)
+    runs += shards("xen-debug", "c12", 4, ["seed=%d" % (seed + 2), "cases=40000"], timeout=3400, crash_is_violation=True)
+    runs += shards("miri", "c12", 16, ["seed=%d" % seed, "cases=1600", "maxsteps=14", "noenum"], timeout=3400)
+    runs.append(Run("miri", "c12", ["seed=%d" % seed, "cases=0"], timeout=3400))
+    return runs
+
+
+def aux_c12(tier, seed):
+    results, viols, inconc = core.compile_fail_corpus("std-debug")
+    return ({"static_clause_corpus": {"programs": len(results), "results": results,
+                                       "note": "auxiliary, outside the runtime-monitoring family: rustc verdicts on escaping-accessor programs and their non-escaping twins"}},
+            viols, inconc)
+
+
+AUX["C12"] = aux_c12
+FLOORS["C12"] = {"drop_orders_enumerated": 72, "evaluations": 5000, "distinct_nontrivial": 100}
 
 # properties that are (currently) not claimed, with the reason recorded in MANIFEST.json
 NOT_CLAIMED = {}
